@@ -25,7 +25,7 @@ ASSUMPTIONS = ['collections are re-iterable (no one-shot iterators)', 'values co
 FLOORS = {'quick': {'builds_compared': 10000, 'empty_factor_products': 500, 'no_parameter_products': 100, 'string_factors': 800,
                     'scalar_factors': 800, 'repeated_value_factors': 600, 'numpy_factors': 600, 'range_factors': 600,
                     'rejected_nonstr_name': 1000, 'rejected_duplicate': 770, 'rejected_unknown_removal': 1000,
-                    'constructor_declarations': 740, 'rejected_constructor': 100, 'reach:Batching.ParameterList.build': 10000},
+                    'sibling_list_checks': 500, 'constructor_declarations': 740, 'rejected_constructor': 100, 'reach:Batching.ParameterList.build': 10000},
           'thorough': {'builds_compared': 1000000}}
 EXHAUSTIVE = {}
 
@@ -137,6 +137,8 @@ def case_history(ctx, case):
                 ctx.count(kind + '_factors')
         keep = dict(init)
         pl = batching.ParameterList(init)
+        sibling = batching.ParameterList(init)       # a second list declared from the very same dict
+        sibling_decl = list(decl)
         ctx.count('constructor_declarations')
         trace.append(('ctor', list(init)))
         check(init == keep or all(init[k] is keep[k] for k in keep), 'constructor changed the caller\'s dict')
@@ -148,6 +150,7 @@ def case_history(ctx, case):
     else:
         pl = batching.ParameterList() if rng.random() < 0.5 else batching.ParameterList(None)
         trace.append(('ctor', None))
+        init = keep = sibling = sibling_decl = None
     compare(ctx, pl, decl, 'after construction')
     for _ in range(rng.randint(3, 10)):
         x = rng.random()
@@ -201,6 +204,12 @@ def case_history(ctx, case):
                 victim[k] = 'mutated'
             del g1[:]
             compare(ctx, pl, decl, 'after mutating a returned combination')
+    if sibling is not None:
+        # operations on one list must not reach the caller's dict nor another list declared from it
+        ctx.count('sibling_list_checks')
+        check(list(init.keys()) == list(keep.keys()) and all(init[k_] is keep[k_] for k_ in keep),
+              'operations on a ParameterList changed the dict it was constructed from', before=list(keep), after=list(init), trace=trace[-8:])
+        compare(ctx, sibling, sibling_decl, 'a second ParameterList declared from the same dict, after operations on the first')
     big = [len(factor(v)) for _, v in decl]
     if sum(1 for b in big if b >= 2) >= 2 and ('rep' in flags or 'single' in flags) and 'rej' in flags:
         ctx.distinct((tuple((n, repr(v)) for n, v in decl), tuple(t[0] for t in trace)))
